@@ -47,6 +47,10 @@ def cases(tier, rng):
         a = rng.choice([0, 1, f[1] - 1, rng.randrange(f[1])])
         b = rng.choice([0, 1, f[1] - 1, rng.randrange(f[1])])
         lines.append("gfop %s %d %d" % (fs(f), a, b))
+    LIBF = {"qr": 256, "dm": 256, "az4": 16, "az6": 64, "az8": 256, "az10": 1024, "az12": 4096}
+    for _ in range(700 if tier == "quick" else 20000):
+        w = rng.choice(sorted(LIBF))
+        lines.append("gfoplib %s %d %d" % (w, rng.randrange(LIBF[w]), rng.randrange(LIBF[w])))
     npoly = 400 if tier == "quick" else 10000
     for _ in range(npoly):
         f = rng.choice(FIELDS)
@@ -76,6 +80,11 @@ def cases(tier, rng):
             ks.append(str(k))
             ds.append(",".join(map(str, d)) if d else "-")
         lines.append("rs %s %s %s" % (fs(f), ";".join(ks), ";".join(ds)))
+    # many check symbols over the large fields (k around and above 255, up to 600)
+    for f in [(1033, 1024, 1), (4201, 4096, 1)]:
+        for k in ([254, 255, 256, 600] if tier == "quick" else [254, 255, 256, 257, 300, 511, 512, 600]):
+            d = ",".join(str(rng.randrange(f[1])) for _ in range(rng.randrange(1, 30)))
+            lines.append("rs %s %d %s" % (fs(f), k, d))
     # package-level encoders: interleaved request orders, cache carries across lines
     for _ in range(60 if tier == "quick" else 1500):
         which = rng.choice(["qr", "dm"])
@@ -94,6 +103,8 @@ def nontrivial(line, out):
         return t[4] != "0"
     if t[0] == "gfop":
         return t[4] != "0" and t[5] != "0"
+    if t[0] == "gfoplib":
+        return t[2] != "0" and t[3] != "0"
     return True
 
 
@@ -105,6 +116,10 @@ def oracle_lines(lines, outs):
             res.append(None)
         elif t[0] == "gfop":
             res.append("gfopspec %s %s %s %s" % (" ".join(t[1:4]), t[4], t[5], o))
+        elif t[0] == "gfoplib":
+            P = {"qr": "285 256 0", "dm": "301 256 1", "az4": "19 16 1", "az6": "67 64 1", "az8": "301 256 1",
+                 "az10": "1033 1024 1", "az12": "4201 4096 1"}[t[1]]
+            res.append("gfopspec %s %s %s %s" % (P, t[2], t[3], o))
         elif t[0] == "poly" and t[4] == "div" and len(o.split()) == 2:
             res.append("polydivspec %s %s %s %s" % (" ".join(t[1:4]), t[5], t[6], o))
         elif t[0] == "rs":
